@@ -1,4 +1,345 @@
+//! C01 — in-circuit STARK verification agrees with native verification.
+//!
+//! Enumerated: for every configuration of the finite E4 catalogue (quick: the flagged cross-section, thorough: all),
+//! the honest (proof, public values, preprocessed commitment / common data) object and EVERY
+//! single-leaf value fault of its JSON tree: every field-element coefficient, digest word, PoW
+//! witness, public value ← leaf+1 mod p (thorough also ← 0 and ← neighbouring leaf of the same
+//! class), every structural integer (`degree_bits`, `log_arity`, preprocessed metadata) ← ±1.
+//! Oracle: verdict of Plonky3's native verifier == verdict of the repository's verification
+//! circuit (built for the faulted object's shape with the real API, packed with the inputs
+//! builder, run with the real runner). Native-accept/circuit-reject or native-reject/circuit-accept
+//! is a violation, keyed by configuration + leaf path class + direction.
+
+use std::collections::BTreeMap;
+use std::sync::Mutex;
+use std::sync::atomic::{AtomicU64, Ordering};
+use std::time::Instant;
+
+use vpcore::rayon::prelude::*;
+use vpcore::serde_json::{Value, json};
+use vpcore::{Ctx, Histo, Report, finish, machinery_error};
+use vpe4::{Fixture, Leaf, LeafKind, ValueFault, Verdict, catalogue, faulted_value, leaves, parse_path, path_string, with_leaf};
+
+#[derive(Clone)]
+struct Case {
+    leaf_idx: usize,
+    fault: ValueFault,
+    new_value: u64,
+}
+
+#[derive(Default, Clone)]
+struct ClassRow {
+    evals: u64,
+    native_reject: u64,
+    both_accept: u64,
+    circuit_panic: u64,
+    not_a_proof: u64,
+}
+
+#[derive(Clone, Copy, PartialEq, Eq, Debug)]
+enum Outcome {
+    AgreeReject,
+    BothAccept,
+    NotAProof,
+    /// native accepts, circuit rejects
+    FalseReject,
+    /// native rejects, circuit accepts
+    FalseAccept,
+}
+
+/// Judge one tree. A disagreement seen with the cached circuit is re-judged with a circuit built
+/// from scratch for exactly this tree, so the per-skeleton cache can never create a violation.
+fn judge(fx: &Fixture, tree: &Value, cache_mismatch: &AtomicU64) -> (Outcome, Verdict, Verdict) {
+    let n = fx.native_verify(tree);
+    if n.not_a_proof() {
+        return (Outcome::NotAProof, n.clone(), n);
+    }
+    let mut c = fx.circuit_verify(tree);
+    if c.not_a_proof() {
+        return (Outcome::NotAProof, n, c);
+    }
+    if n.accepts() != c.accepts() {
+        let fresh = fx.circuit_verify_fresh(tree);
+        if fresh.accepts() != c.accepts() {
+            cache_mismatch.fetch_add(1, Ordering::Relaxed);
+        }
+        c = fresh;
+    }
+    let o = match (n.accepts(), c.accepts()) {
+        (true, true) => Outcome::BothAccept,
+        (false, false) => Outcome::AgreeReject,
+        (true, false) => Outcome::FalseReject,
+        (false, true) => Outcome::FalseAccept,
+    };
+    (o, n, c)
+}
+
+fn direction(o: Outcome) -> &'static str {
+    match o {
+        Outcome::FalseReject => "native_accept_circuit_reject",
+        Outcome::FalseAccept => "native_reject_circuit_accept",
+        _ => "",
+    }
+}
+
+fn fault_kinds(ctx: &Ctx, kind: LeafKind) -> Vec<ValueFault> {
+    match (ctx.quick(), kind) {
+        (true, LeafKind::Field) => vec![ValueFault::PlusOne],
+        (true, LeafKind::Structural) => vec![ValueFault::PlusOne, ValueFault::MinusOne],
+        (false, LeafKind::Field) => vec![ValueFault::PlusOne, ValueFault::Zero, ValueFault::Neighbour],
+        (false, LeafKind::Structural) => vec![ValueFault::PlusOne, ValueFault::MinusOne, ValueFault::Zero],
+    }
+}
+
+fn replay(ctx: &Ctx, path: &std::path::Path) -> ! {
+    let r = vpcore::load_replay(path);
+    let cfg = r["config"].as_str().unwrap_or_else(|| machinery_error("replay: no config"));
+    let spec = vpe4::find_spec(cfg).unwrap_or_else(|| machinery_error(&format!("replay: unknown config {cfg}")));
+    let fx = (spec.make)().unwrap_or_else(|e| machinery_error(&e));
+    let report = Report::new();
+    let cm = AtomicU64::new(0);
+    let tree = if r["honest"].as_bool().unwrap_or(false) {
+        fx.honest.clone()
+    } else {
+        let p = parse_path(r["path"].as_str().unwrap_or(""));
+        let nv = r["new_value"].as_u64().unwrap_or_else(|| machinery_error("replay: no new_value"));
+        with_leaf(&fx.honest, &p, nv)
+    };
+    let (o, n, c) = judge(&fx, &tree, &cm);
+    println!("replaying {cfg} {} -> native {} | circuit {} => {:?}", r["path"], n.tag(), c.tag(), o);
+    if matches!(o, Outcome::FalseAccept | Outcome::FalseReject) {
+        let key = format!("{}|{}|{}", cfg, r["class"].as_str().unwrap_or("honest"), direction(o));
+        report.violation(key, format!("native {} but circuit {}", n.tag(), c.tag()), r.clone());
+    }
+    let cov = json!({"evaluations": 1, "distinct_nontrivial": 2, "rule": "replay of one stored case (native + circuit verdict)",
+                     "samples": [{"config": cfg, "path": r["path"], "native": n.to_json(), "circuit": c.to_json()}], "replay": true});
+    finish(ctx, cov, vec![], &report)
+}
+
 fn main() {
-    eprintln!("MACHINERY-ERROR: check c01 not built yet");
-    std::process::exit(2);
+    let ctx = Ctx::from_args("C01", "fault_enumeration");
+    vpcore::install_quiet_panic_hook();
+    if let Some(p) = &ctx.replay {
+        replay(&ctx, &p.clone());
+    }
+    let report = Report::new();
+    let verdicts = Histo::new();
+    let cache_mismatch = AtomicU64::new(0);
+
+    let filter = ctx.opt("config").map(|s| s.to_string());
+    let specs: Vec<_> = catalogue()
+        .into_iter()
+        .filter(|s| match &filter {
+            Some(f) => s.name.contains(f.as_str()),
+            None => !ctx.quick() || s.quick,
+        })
+        .collect();
+    if specs.is_empty() {
+        machinery_error("no configuration selected");
+    }
+
+    let mut per_config = vec![];
+    let mut samples: Vec<Value> = vec![];
+    let mut both_accept_list: Vec<Value> = vec![];
+    let mut panic_notes: BTreeMap<String, u64> = BTreeMap::new();
+    let (mut evaluations, mut nontrivial, mut planned_total, mut skipped_total) = (0u64, 0u64, 0u64, 0u64);
+    let mut configs_done = 0usize;
+    let mut exhaustive = true;
+    let n_specs = specs.len();
+
+    for spec in specs {
+        if ctx.out_of_time() {
+            exhaustive = false;
+            break;
+        }
+        let t0 = Instant::now();
+        let fx = (spec.make)().unwrap_or_else(|e| machinery_error(&format!("cannot build fixture: {e}")));
+
+        // ---- honest object: both sides must accept
+        let (o, n, c) = judge(&fx, &fx.honest, &cache_mismatch);
+        verdicts.add(&format!("honest:{}|{}", n.tag(), c.tag()));
+        evaluations += 1;
+        match o {
+            Outcome::BothAccept => {}
+            Outcome::FalseReject => {
+                report.violation(
+                    format!("{}|honest|{}", fx.name, direction(o)),
+                    format!("honest proof: native accepts, circuit {}", c.tag()),
+                    json!({"config": fx.name, "honest": true, "native": n.to_json(), "circuit": c.to_json()}),
+                );
+                // the fault sweep is meaningless without an accepted baseline
+                eprintln!("[C01] {} HONEST: native {} circuit {}", fx.name, n.tag(), c.to_json());
+                per_config.push(json!({"config": fx.name, "desc": fx.desc, "honest": "native accept / circuit reject"}));
+                continue;
+            }
+            _ => machinery_error(&format!(
+                "fixture {}: honest object not accepted natively (native {}, circuit {})",
+                fx.name,
+                n.tag(),
+                c.tag()
+            )),
+        }
+
+        // ---- every single-leaf value fault
+        let all: Vec<Leaf> = leaves(&fx.honest);
+        let mut cases: Vec<Case> = vec![];
+        for (i, l) in all.iter().enumerate() {
+            for f in fault_kinds(&ctx, l.kind) {
+                if let Some(nv) = faulted_value(l, i, &all, f, fx.modulus) {
+                    cases.push(Case { leaf_idx: i, fault: f, new_value: nv });
+                }
+            }
+        }
+        planned_total += cases.len() as u64;
+        let classes: Mutex<BTreeMap<String, ClassRow>> = Mutex::new(BTreeMap::new());
+        let skipped = AtomicU64::new(0);
+        let local_samples: Mutex<Vec<Value>> = Mutex::new(vec![]);
+        let local_both: Mutex<Vec<Value>> = Mutex::new(vec![]);
+        let local_panics: Mutex<BTreeMap<String, u64>> = Mutex::new(BTreeMap::new());
+        let (ev, nt) = (AtomicU64::new(0), AtomicU64::new(0));
+
+        cases.par_iter().for_each(|case| {
+            if ctx.out_of_time() {
+                skipped.fetch_add(1, Ordering::Relaxed);
+                return;
+            }
+            let leaf = &all[case.leaf_idx];
+            let tree = with_leaf(&fx.honest, &leaf.path, case.new_value);
+            let (o, n, c) = judge(&fx, &tree, &cache_mismatch);
+            ev.fetch_add(1, Ordering::Relaxed);
+            verdicts.add(&format!("{}|{}", n.tag(), c.tag()));
+            let mut g = classes.lock().unwrap();
+            let row = g.entry(leaf.class.clone()).or_default();
+            row.evals += 1;
+            match o {
+                Outcome::NotAProof => row.not_a_proof += 1,
+                Outcome::BothAccept => row.both_accept += 1,
+                Outcome::AgreeReject | Outcome::FalseAccept => row.native_reject += 1,
+                Outcome::FalseReject => {}
+            }
+            if c.is_panic() {
+                row.circuit_panic += 1;
+            }
+            drop(g);
+            if n.rejects() {
+                nt.fetch_add(1, Ordering::Relaxed);
+            }
+            let case_json = || {
+                json!({"config": fx.name, "path": path_string(&leaf.path), "class": leaf.class,
+                       "kind": format!("{:?}", leaf.kind), "fault": case.fault.tag(), "old_value": leaf.value,
+                       "new_value": case.new_value, "native": n.to_json(), "circuit": c.to_json()})
+            };
+            match o {
+                Outcome::FalseAccept | Outcome::FalseReject => {
+                    report.violation(
+                        format!("{}|{}|{}", fx.name, leaf.class, direction(o)),
+                        format!(
+                            "{} leaf {} {}→{}: native {} but circuit {}",
+                            fx.name,
+                            path_string(&leaf.path),
+                            leaf.value,
+                            case.new_value,
+                            n.tag(),
+                            c.tag()
+                        ),
+                        case_json(),
+                    );
+                }
+                Outcome::BothAccept => {
+                    let mut b = local_both.lock().unwrap();
+                    if b.len() < 40 {
+                        b.push(case_json());
+                    }
+                }
+                Outcome::AgreeReject => {
+                    if c.is_panic() || n.is_panic() {
+                        // noted, not judged here (C15 owns the no-panic clause)
+                        let who = if c.is_panic() { format!("circuit {}", c.tag()) } else { format!("native {}", n.tag()) };
+                        *local_panics.lock().unwrap().entry(format!("{} @ {}", who, leaf.class)).or_insert(0) += 1;
+                    }
+                    let mut s = local_samples.lock().unwrap();
+                    if s.len() < 2 {
+                        s.push(case_json());
+                    }
+                }
+                Outcome::NotAProof => {}
+            }
+        });
+
+        let classes = classes.into_inner().unwrap();
+        let sk = skipped.load(Ordering::Relaxed);
+        if sk > 0 {
+            exhaustive = false;
+        }
+        skipped_total += sk;
+        evaluations += ev.load(Ordering::Relaxed);
+        nontrivial += nt.load(Ordering::Relaxed);
+        let both: u64 = classes.values().map(|r| r.both_accept).sum();
+        let nap: u64 = classes.values().map(|r| r.not_a_proof).sum();
+        for (k, v) in local_panics.into_inner().unwrap() {
+            *panic_notes.entry(k).or_insert(0) += v;
+        }
+        samples.extend(local_samples.into_inner().unwrap());
+        both_accept_list.extend(local_both.into_inner().unwrap());
+        let class_json: BTreeMap<String, Value> = classes
+            .iter()
+            .map(|(k, r)| (k.clone(), json!([r.evals, r.native_reject, r.both_accept, r.circuit_panic, r.not_a_proof])))
+            .collect();
+        let n_field = all.iter().filter(|l| l.kind == LeafKind::Field).count();
+        per_config.push(json!({
+            "config": fx.name, "desc": fx.desc, "honest": "accepted by both",
+            "leaves": all.len(), "field_leaves": n_field, "structural_leaves": all.len() - n_field,
+            "leaf_classes": classes.len(), "faults_planned": cases.len(), "faults_evaluated": ev.load(Ordering::Relaxed),
+            "faults_skipped_out_of_time": sk, "native_reject": nt.load(Ordering::Relaxed), "both_accept": both,
+            "not_a_proof": nap, "circuit": fx.stats.to_json(), "wall_s": t0.elapsed().as_secs_f64(),
+            "per_class[evals,native_reject,both_accept,circuit_panic,not_a_proof]": class_json,
+        }));
+        configs_done += 1;
+        eprintln!(
+            "[C01] t={:.1}s {} leaves={} faults={} native_reject={} both_accept={} {:.1}s",
+            ctx.elapsed_s(),
+            fx.name,
+            all.len(),
+            ev.load(Ordering::Relaxed),
+            nt.load(Ordering::Relaxed),
+            both,
+            t0.elapsed().as_secs_f64()
+        );
+        // free this configuration's per-thread engines (circuit caches)
+        vpcore::rayon::broadcast(|_| fx.release_thread_engine());
+        fx.release_thread_engine();
+    }
+    if configs_done < n_specs {
+        exhaustive = false;
+    }
+
+    samples.truncate(6);
+    both_accept_list.truncate(60);
+    let cov = json!({
+        "evaluations": evaluations,
+        "distinct_nontrivial": nontrivial,
+        "rule": "one evaluation = one tree (honest object or one single-leaf fault) judged by BOTH the native verifier and the \
+                 verification circuit; distinct = distinct (configuration, leaf path, fault kind); non-trivial = the native \
+                 verifier REJECTS the faulted object, so the circuit's rejection is a real check (faults both sides accept are \
+                 listed under both_accept)",
+        "exhaustive": exhaustive,
+        "space": "configurations × (honest + every numeric leaf × fault kinds); quick: leaf+1 (structural ±1); thorough: +1, 0, neighbour (structural ±1, 0)",
+        "configurations_planned": n_specs,
+        "configurations_done": configs_done,
+        "faults_planned": planned_total,
+        "faults_skipped_out_of_time": skipped_total,
+        "verdict_histogram[native|circuit]": verdicts.to_json(),
+        "both_accept": both_accept_list,
+        "panics_while_other_side_rejects": panic_notes,
+        "cached_vs_fresh_circuit_mismatch": cache_mismatch.load(Ordering::Relaxed),
+        "per_config": per_config,
+        "samples": samples,
+    });
+    let assumptions = vec![
+        "native Plonky3 0.6.3 verifiers (p3-uni-stark verify_with_preprocessed, p3-batch-stark verify_batch) are the specification; for circuit-table proofs the native judge is BatchStarkProver::verify_all_tables (thin wrapper over verify_batch)".to_string(),
+        "single faults only; fault values +1 (thorough: 0 and neighbour) — not every field value".to_string(),
+        "circuit verdict = runner outcome on honestly packed inputs (pack_values + set_*_mmcs_private_data of the faulted object); satisfiability by other private witnesses is C04/C06 territory".to_string(),
+        "the verification circuit is cached per tree skeleton (shape incl. structural integers); every disagreement is re-judged with a freshly built circuit".to_string(),
+    ];
+    finish(&ctx, cov, assumptions, &report)
 }
